@@ -746,26 +746,25 @@ impl OverlayInode {
         inodes.extend(new);
     }
 
+    // Check whether any lower layer of this directory provides a (not whiteout-ed) child <name>.
+    pub fn lower_layers_have_child(&self, ctx: &Context, name: &str) -> Result<bool> {
+        for ri in self.real_inodes.lock().unwrap().iter() {
+            if ri.in_upper_layer {
+                continue;
+            }
+            // The topmost lower layer knowing the name decides.
+            if let Some(child) = ri.lookup_child(ctx, name)? {
+                return Ok(!child.whiteout);
+            }
+        }
+        Ok(false)
+    }
+
     pub fn in_upper_layer(&self) -> bool {
         let all_inodes = self.real_inodes.lock().unwrap();
         let first = all_inodes.first();
         match first {
             Some(v) => v.in_upper_layer,
-            None => false,
-        }
-    }
-
-    pub fn upper_layer_only(&self) -> bool {
-        let real_inodes = self.real_inodes.lock().unwrap();
-        let first = real_inodes.first();
-        match first {
-            Some(v) => {
-                if !v.in_upper_layer {
-                    false
-                } else {
-                    real_inodes.len() == 1
-                }
-            }
             None => false,
         }
     }
@@ -1887,12 +1886,12 @@ impl OverlayFs {
             trace!("whiteouts deleted!\n");
         }
 
-        let mut need_whiteout = true;
         let pnode = self.copy_node_up(ctx, Arc::clone(&pnode))?;
 
-        if node.upper_layer_only() {
-            need_whiteout = false;
-        }
+        // A whiteout is needed as long as a lower layer of the parent provides an entry with this
+        // name, even if the node itself only lives in the upper layer by now (copied up, or
+        // re-created over an earlier whiteout).
+        let mut need_whiteout = pnode.lower_layers_have_child(ctx, sname.as_str())?;
 
         let mut path_removed = None;
         if node.in_upper_layer() {
